@@ -253,6 +253,68 @@ from . import vocab
 
 from . import inventory
 
+WINDOW_PRUNES = [
+    # function, map field, what the window is relative to
+    (UDP + '::on_input', 'recv_inputs', 'the newest received frame'),
+    (P2P + '::check_checksum_send_interval', 'local_checksum_history', 'the frame whose checksum was just recorded'),
+    (UDP + '::on_checksum_report', 'pending_checksums', 'the frame of the report just received'),
+]
+
+
+def window_prunes(W, ob):
+    """every `retain` that bounds a history map is a sliding window: it keeps exactly the keys at or above a threshold, and the threshold is an affine function
+    (reference frame minus a multiple of a configured window) -- no clamp, no min/max with another frame, no `!=`.  A threshold clamped at 0 evicts the blank
+    NULL_FRAME (-1) reference a first packet decodes against; a threshold that is the minimum with the peer's ack never moves on a receive-only endpoint (the map
+    grows for ever); a `!=` keeps everything but one key."""
+    from .facts import strip_generics, Place
+    n = 0
+    for fn, fld, ref in WINDOW_PRUNES:
+        f = W.fn(fn)
+        cx = W.ctx(f)
+        rets = [t for t in f.calls() if last_seg(t.callee.best) == 'retain' and t.args and cx.ap_carry(t.args[0].place).s(f).endswith('.' + fld)]
+        if not rets:
+            ob.info('%s: %s is not pruned with retain here (another bounding construct: see C18.O2)' % (short(fn), fld))
+            continue
+        for t in rets:
+            src = trace_back(W, f, t.args[1])
+            clo = None
+            if src and src[0] == 'stmt' and src[1].rv.k == 'agg' and src[1].rv.j.get('ak') == 'closure':
+                cp = strip_generics(src[1].rv.j['closure'])
+                clo = next((c for c in W.closures_of(f) if c.path == cp), None)
+            if clo is None:
+                ob.info('%s: the predicate of %s.retain is not a closure literal' % (short(fn), fld))
+                continue
+            n += 1
+            d = atoms_of_cond(W.ctx(clo).expr_place(Place({'l': 0, 'p': []})), True)
+            desc = dnf_str(d)[:300]
+            ok = False
+            why = 'it is not a single one-sided comparison'
+            if len(d) == 1 and len(d[0]) == 1 and d[0][0][0] == 'lin':
+                terms, lo, hi = lin_view(d[0][0])
+                keys_ = [k for k in terms if k.startswith('arg') and '(' not in k]
+                compound = [k for k in terms if any(x in k for x in ('min(', 'max(', 'clamp(', 'saturating_', 'wrapping_', 'checked_'))]
+                one_sided = (lo is None) != (hi is None)
+                if compound:
+                    why = 'its threshold is clamped or merged with another value (`%s`)' % compound[0][:80]
+                elif not keys_ or not all(abs(terms[k]) == 1 for k in keys_):
+                    why = 'the key does not enter it with coefficient 1'
+                elif not one_sided:
+                    why = 'it is not one-sided'
+                else:
+                    # keeps the LARGER keys: the entry's own key (the shortest arg term) has the sign of the open side
+                    k0 = min(keys_, key=len)
+                    ok = (terms[k0] > 0 and hi is None) or (terms[k0] < 0 and lo is None)
+                    why = 'it keeps the older keys and drops the newer ones'
+            ob.check(ok, '%s|window-prune|%s' % (short(fn), fld), '%s.retain in %s is a sliding window relative to %s: `%s`' % (fld, short(fn), ref, desc),
+                     '%s.retain in %s is not a sliding window (keys at or above reference - k*window): %s -- predicate `%s`' % (fld, short(fn), why, desc), where(clo))
+    ob.require_count(n, 2, 'history maps pruned by a retain window')
+
+
+WINDOW_TITLE = 'history maps are pruned by a sliding window'
+WINDOW_TEXT = ('each retain that bounds recv_inputs / local_checksum_history / pending_checksums keeps exactly the keys at or above an affine threshold (reference frame - k * window): one '
+               'one-sided linear comparison with the key at coefficient 1, newer keys kept, no clamp, no min/max with another frame, no `!=`')
+
+
 OBLIGATIONS = [
     ('C18.O1', 'inventory', 'every growable collection field of the sessions / endpoint / sync layer is listed; every growth site found by the writer-set analysis is '
      'recorded with its bounding construct; fixed-size collections have no growth site outside constructors.', o1),
@@ -261,6 +323,7 @@ OBLIGATIONS = [
     ('C18.O3', 'outgoing_local_inputs', 'inputs are queued only when there are remotes, and drained whenever there are remotes and local players (no stricter condition); '
      'the drain removes what it sends and follows the sent-cursor.', o3),
     ('C18.O4', 'sync_random_requests', 'nonces are created only while synchronizing (outside the property\'s synchronized session); listed.', o4),
+    ('C18.O11', WINDOW_TITLE, WINDOW_TEXT, window_prunes),
     ('C18.H', 'helpers the rules above rely on', 'the bodies of the helpers named by this property\'s rules compute what the rules assume (next_complete); see rules/helpers.py', helpers.bundle('next_complete')),
     ('C18.W', 'endpoint construction wiring', 'cap-then-disconnect bounds pending_output only if the session can stop the endpoint that reported Disconnected, which it does per handle of that endpoint: the handle list the builder collected for an address reaches UdpProtocol::new whole (no element-dropping operation on a collection forwarded under its own name), and no configuration wire is crossed; see rules/wiring.py', wiring.rule),
     ('C18.I', 'initial state', 'every constructor gives the fields this property\'s rules interpret (NULL_FRAME = none / nothing yet, 0 = first frame, latches open, typestate start) the value listed in tables/initial_state.json; every field compared with NULL_FRAME anywhere is listed; see rules/initial.py', initial.rule_for('C18')),
